@@ -13,13 +13,16 @@ What is proved (for all copies, digests, truncation points, histories):
   bounded, whatever happened before (losses, duplications, partitions, truncations, resets, GCs);
 * `C01_fixed_point_is_converged`: when no copy is lagging any more every copy has the owner's max version.
 
-*Partial*: (a) that in a multi-member handshake the *first* member in staleness order is always
-admitted with at least one op (the property's "digest and any single key-value fit" assumption), and
-(b) the graph argument (connected peers, fair schedule ⇒ a lagging pair eventually shakes hands) are
-not mechanised; both are exercised by the `cluster` suite's fair suffix and its per-handshake monitor.
+* `C01_handshake_step_progress`: the same through the executable sender — serializer, byte budget,
+  block stream, staleness order: the first member in staleness order is always admitted with at
+  least one op when the header and one op fit, and the peer then strictly advances on it.
+
+*Partial*: the graph argument (connected peers, fair schedule ⇒ a lagging pair eventually shakes
+hands) is not mechanised; it is exercised by the `cluster` suite's fair suffix and its monitors.
 -/
 import ChitchatModel.Props.C14
 import ChitchatModel.Props.C03
+import ChitchatModel.Lemmas.Progress
 namespace Chitchat
 open NodeState ClusterState
 
@@ -29,6 +32,38 @@ theorem C01_handshake_progress (s r : NodeState) (n : Nat) (now : Nat)
     let nd := senderNodeDelta s (senderFrom s r.lastGc r.maxVersion) n true
     ∃ r' st evs, NodeState.applyDelta r nd now = .ok (r', st, evs) ∧ frontierLt r.frontier r'.frontier :=
   C14_nonempty_progress s r n now hahead hn
+
+/-- **C01 (a handshake step makes progress, through the real sender).** Whatever the cluster state
+(well formed), the peer's digest, the compressor and the shuffle order: if the budget admits the
+header of the first member in staleness order plus one more op (the property's "the digest and any
+single key-value fit a datagram"), then the reply computed by `compute_partial_delta_respecting_mtu`
+contains a node delta for that member which the peer — whose copy is what its digest said — applies
+with a strictly larger frontier. Together with `C01_handshake_monotone`, `C01_rank_*` and
+`C01_progress_steps_bounded` this bounds the number of handshakes between two nodes one of which is
+ahead of the other on an advertised member. -/
+theorem C01_handshake_step_progress (C : Compressor) (cs : ClusterState) (hcs : WFCluster cs)
+    (digest : Digest) (mtu : Nat) (h100 : 100 ≤ mtu) (hmax : mtu ≤ 65539) (sched order : List Id)
+    (sn : StaleNode) (rest : List StaleNode)
+    (hs : sortStale order (staleNodes cs digest sched) = sn :: rest)
+    (hwf : WFOp (.node sn.id sn.state.lastGc sn.fromExcl))
+    (hh : opLen (.node sn.id sn.state.lastGc sn.fromExcl) ≤ 16384)
+    (hfit : opLen (.node sn.id sn.state.lastGc sn.fromExcl) + firstItemLen sn + 7 ≤ mtu)
+    (r : NodeState) (hr : digestEntry sn.id digest = (r.lastGc, r.maxVersion)) (now : Nat) :
+    ∃ delta nd, computeDelta C cs digest mtu sched order = .ok delta ∧ (sn.id, nd) ∈ delta.nodeDeltas ∧
+      ∃ r' st evs, r.applyDelta nd now = .ok (r', st, evs) ∧ frontierLt r.frontier r'.frontier := by
+  obtain ⟨delta, hd, nd, hmem, hpos, n, b, hnd⟩ :=
+    computeDelta_first_progress C cs hcs digest mtu h100 hmax sched order sn rest hs hwf hh hfit
+  have hsn : sn ∈ staleNodes cs digest sched := by
+    rw [← mem_sortStale order, hs]; exact List.mem_cons_self
+  obtain ⟨hfrom, hahead, _⟩ := mem_staleNodes_digest hsn
+  rw [hr] at hfrom hahead
+  simp only at hfrom hahead
+  refine ⟨delta, nd, hd, hmem, ?_⟩
+  rw [hnd, hfrom]
+  rw [hnd, hfrom] at hpos
+  obtain ⟨r', evs, happly, _, hlt⟩ := C14_strict_progress sn.state r n b now
+  refine ⟨r', _, evs, happly, hlt ?_⟩
+  exact C14_never_refused sn.state r n b hahead (senderNodeDelta_carries _ _ _ _ hpos)
 
 /-- a handshake step never lowers a frontier, whatever is delivered (C04) -/
 theorem C01_handshake_monotone (r : NodeState) (nd : NodeDelta) (now : Nat) (hwf : nd.KvsLeMax) :
@@ -104,6 +139,25 @@ theorem C01_fixed_point_is_converged (σ : XSys) (h : XReach false σ)
   omega
 
 /-! ### Non-vacuity -/
+/- the hypotheses of `C01_handshake_step_progress` on a concrete one-member state -/
+def exId : Id := ⟨[97], 0, .v4 [127, 0, 0, 1] 7000⟩
+def exCopy : NodeState := { heartbeat := 3, kvs := [([107], ⟨[118], 1, .set⟩)], maxVersion := 1, lastGc := 0 }
+def exCs : ClusterState := { nodes := [(exId, exCopy)] }
+def exSn : StaleNode := ⟨exId, exCopy, 0, ⟨true, 1, 1⟩⟩
+
+example : sortStale [] (staleNodes exCs [] []) = [exSn] := by rfl
+example : opLen (.node exSn.id exSn.state.lastGc exSn.fromExcl) + firstItemLen exSn + 7 ≤ 1000 := by decide
+example : WFCluster exCs := by
+  refine ⟨by simp [exCs, SortedBy], ?_⟩
+  intro p hp
+  simp only [exCs, List.mem_singleton] at hp
+  subst hp
+  refine ⟨by simp [exCopy, SortedKeys], ?_, ?_⟩
+  · intro a ha b hb _; simp only [exCopy, List.mem_singleton] at ha hb; rw [ha, hb]
+  · intro k v h; simp only [exCopy, AL.lookup] at h; split at h
+    · injection h with h; subst h; simp [exCopy]
+    · cases h
+
 example : rank 3 (1, 2) < rank 3 (2, 0) := by decide
 example : [0, 3, 4].Pairwise (fun a b => a < b) := by decide
 
